@@ -100,7 +100,7 @@ class FastHierarchyAnalyzer(HierarchyAnalyzerBase):
         def _get_graph() -> Tuple[Tuple[int, ...], DSGType]:
             graph = self.adsg
             if len(opt_idx_try) == 0:
-                return graph.copy()
+                return tuple(), graph.copy()
 
             # Generate graph
             taken_sel_opt = [X_INACTIVE_VALUE for _ in range(len(opt_idx_try))]
@@ -183,6 +183,11 @@ class FastHierarchyAnalyzer(HierarchyAnalyzerBase):
 
     def _iter_neighborhood(self, opt_idx: List[int], is_fixed: List[bool]) -> Generator[Tuple[int, ...], None, None]:
         n_opts = self.n_opts
+
+        # Without selection choices, the only design vector is the empty one
+        if len(opt_idx) == 0:
+            yield tuple()
+            return
 
         def _iter_values(i_dv):
             i_current = opt_idx[i_dv]
